@@ -999,6 +999,21 @@ func buildAnyCRLsWithCerts(
 			var crlIdentifier crlID
 			var crlIdIssuer issuerID
 			for _, issuerId := range issuersSet {
+				// Pull in the revoked certs associated with this member. A
+				// revoked cert is associated with an arbitrary member of
+				// this set, which need not have crl-signing usage: its certs
+				// still belong on the CRL shared by the set.
+				if thisRevoked, ok := revokedCertsMap[issuerId]; ok && len(thisRevoked) > 0 {
+					revokedCerts = append(revokedCerts, thisRevoked...)
+				}
+
+				// If the default is a member of this set, we'll also pull in
+				// the unassigned certs to remain compatible with Vault's
+				// earlier, potentially questionable behavior.
+				if issuerId == issuersConfig.DefaultIssuerId && len(unassignedCerts) > 0 {
+					revokedCerts = append(revokedCerts, unassignedCerts...)
+				}
+
 				// Skip entries which aren't enabled for CRL signing. We don't
 				// particularly care which issuer is ultimately chosen as the
 				// set representative for signing at this point, other than
@@ -1009,15 +1024,7 @@ func buildAnyCRLsWithCerts(
 
 				// Prefer to use the default as the representative of this
 				// set, if it is a member.
-				//
-				// If it is, we'll also pull in the unassigned certs to remain
-				// compatible with Vault's earlier, potentially questionable
-				// behavior.
 				if issuerId == issuersConfig.DefaultIssuerId {
-					if len(unassignedCerts) > 0 {
-						revokedCerts = append(revokedCerts, unassignedCerts...)
-					}
-
 					representative = issuerId
 				}
 
@@ -1025,11 +1032,6 @@ func buildAnyCRLsWithCerts(
 				// chosen one.
 				if representative == issuerID("") {
 					representative = issuerId
-				}
-
-				// Pull in the revoked certs associated with this member.
-				if thisRevoked, ok := revokedCertsMap[issuerId]; ok && len(thisRevoked) > 0 {
-					revokedCerts = append(revokedCerts, thisRevoked...)
 				}
 
 				// Finally, check our crlIdentifier.
